@@ -1255,7 +1255,7 @@ Theorem weak_inv_not_inductive_fact :
     ui_inv_weak s /\ u_tasks s = pre ++ t :: post /\ ~ ui_inv_weak (runt (remove_task s pre post) t).
 Proof.
   set (p := mkpage (f_create_list ([] : list I)) None true (None : option C) 0 false).
-  exists (mkui [(0%nat, p)] {| h_elems := [0%nat]; h_index := 0 |} MNormal [] 80 24 [TLoadUp 0] 0),
+  exists (mkui [(0%nat, p)] {| h_elems := [0%nat]; h_index := 0 |} MNormal [] 80 24 [TLoadUp 0] []),
          (TLoadUp 0), [], [].
   split; [|split; [reflexivity|]].
   - unfold ui_inv_weak. cbn [u_pages u_hist u_mode u_tasks h_elems h_index page_find length].
